@@ -273,6 +273,10 @@ func runC05(p *core.Prog, r *core.Report) {
 	c, okC := p.ConstInt("pkg/core/object.intValLen")
 	r4.Check(okA && okB && okC && a == b && b == c, "EncodedLen==metabase.intValLen==object.intValLen", "-", fmt.Sprintf("all equal %d", a), fmt.Sprintf("encoded integer length constants disagree: signed256=%d metabase=%d core/object=%d", a, b, c))
 
+	// ---------------- R7 the word-sized fast path is taken only when the word parser succeeded
+	r7 := r.Rule("C05.R7", "in package signed256 a value produced by a strconv parser is used only on the path where that parser returned no error (the parser of query bounds must not keep the clamped value of an out-of-range 20-digit number)", 1)
+	parsedValueOnlyAfterErrCheck(p, r, r7)
+	r.Explain += " (R7) in package signed256 the value of a strconv parser is used only behind its err == nil test: strconv returns the clamped maximum together with a range error, and the two parsers of the package (stored values / query bounds) must give one number for one digit string."
 	// ---------------- R5 Cmp shape
 	r5 := r.Rule("C05.R5", "Cmp: different signs decide the order (negative first); equal signs compare magnitudes, reversed for negatives", 3)
 	if cmp := p.Func("(*" + s256 + "Int).Cmp"); cmp == nil {
@@ -479,4 +483,86 @@ func parserWrapperAgrees(p *core.Prog, h *core.RuleH, fn *ssa.Function) bool {
 		h.Check(okRet, name+"#return!parser-verdict", p.InstrPos(ret), "hands back signed256.ParseDecimal's own verdict", name+" "+why+": this reader accepts a different set of strings than the other integer readers (index written / removed / queried inconsistently)")
 	}
 	return true
+}
+
+// parsedValueOnlyAfterErrCheck: shared by C05.R7 and C03.R8. For every strconv.Parse*/Atoi call in package signed256, each
+// use of the parsed value sits on the err == nil side of a test of that call's error (or returns it together with the error).
+func parsedValueOnlyAfterErrCheck(p *core.Prog, r *core.Report, h *core.RuleH) {
+	n := 0
+	for _, fn := range p.FuncsIn("internal/signed256") {
+		for _, cs := range core.CallSites([]*ssa.Function{fn}, func(s core.Site) bool {
+			return strings.HasPrefix(s.Name, "strconv.Parse") || s.Name == "strconv.Atoi"
+		}) {
+			c, ok := cs.Call.(*ssa.Call)
+			if !ok || c.Referrers() == nil {
+				continue
+			}
+			n++
+			var val, errv *ssa.Extract
+			for _, ref := range *c.Referrers() {
+				if ex, isEx := ref.(*ssa.Extract); isEx {
+					if ex.Index == 0 {
+						val = ex
+					} else {
+						errv = ex
+					}
+				}
+			}
+			key := core.FuncName(fn) + "#" + cs.Name
+			if val == nil || val.Referrers() == nil {
+				h.Check(true, key, p.InstrPos(c), "the parsed value is not used", "")
+				continue
+			}
+			okEdge := func(b *ssa.BasicBlock) bool {
+				if errv == nil || errv.Referrers() == nil {
+					return false
+				}
+				for _, ref := range *errv.Referrers() {
+					bo, isBo := ref.(*ssa.BinOp)
+					if !isBo {
+						continue
+					}
+					k, isK := bo.Y.(*ssa.Const)
+					if !isK || !k.IsNil() {
+						continue
+					}
+					if bo.Op == token.EQL && branchDominates(bo, true, b) || bo.Op == token.NEQ && branchDominates(bo, false, b) {
+						return true
+					}
+				}
+				return false
+			}
+			bad := ""
+			for _, ref := range *val.Referrers() {
+				in, isIn := ref.(ssa.Instruction)
+				if !isIn {
+					continue
+				}
+				if _, isDbg := in.(*ssa.DebugRef); isDbg {
+					continue
+				}
+				if ret, isRet := in.(*ssa.Return); isRet && errv != nil {
+					passes := false
+					for _, rv := range ret.Results {
+						if rv == ssa.Value(errv) {
+							passes = true
+						}
+					}
+					if passes {
+						continue
+					}
+				}
+				if !okEdge(in.Block()) {
+					bad = p.InstrPos(in)
+					break
+				}
+			}
+			h.Check(bad == "", key, p.InstrPos(c), "every use of the parsed value is behind err == nil",
+				"the value of "+cs.Name+" is used at "+bad+" without (or regardless of) its error: for an out-of-range input strconv returns the clamped maximum together with the error, so a 20-digit bound above 2^64-1 silently becomes 18446744073709551615 and the filter compares against the wrong number")
+		}
+	}
+	if n == 0 {
+		// nothing to check is fine (the generic 256-bit parser alone), but say so
+		h.Check(true, "internal/signed256#no-word-parser", "", "package signed256 uses no strconv parser", "")
+	}
 }
